@@ -258,7 +258,9 @@ fn remove_path(v: &mut toml::Value, path: &[String]) {
 
 pub fn example_findings() -> (Vec<Finding>, usize) {
     let mut out = vec![];
-    let text = match std::fs::read_to_string("/repo/config-example.toml") {
+    // the tree under check (./check exports VERIF_REPO; /repo for every registered command)
+    let repo = std::env::var("VERIF_REPO").unwrap_or_else(|_| "/repo".into());
+    let text = match std::fs::read_to_string(format!("{}/config-example.toml", repo)) {
         Ok(t) => t,
         Err(e) => return (vec![finding("machinery", format!("cannot read config-example.toml: {}", e))], 0),
     };
